@@ -44,6 +44,14 @@ def opMcFile (a : Args) : String :=
     "ok rows=" ++ ",".intercalate ((fileRows outcomes order).map toString)
   | _, _ => "bad-args"
 
-def mcOps : List (String × (Args → String)) := [("mcsched", opMcSched), ("mcrow", opMcRow), ("mcstats", opMcStats), ("mcfile", opMcFile)]
+/-- `mcparse id row=<pct>` -> the cells `main` reads from a row text -/
+def opMcParse (a : Args) : String :=
+  match a.get? "row" with
+  | some r =>
+    let cells := parseRowCells (pctDecode r.toList)
+    "ok n=" ++ toString cells.length ++ " cells=" ++ ";".intercalate (cells.map (fun c => pctEncode (String.ofList c)))
+  | none => "bad-args"
+
+def mcOps : List (String × (Args → String)) := [("mcsched", opMcSched), ("mcrow", opMcRow), ("mcstats", opMcStats), ("mcfile", opMcFile), ("mcparse", opMcParse)]
 
 end GeoVerif.Ops
